@@ -289,7 +289,14 @@ func (w *joeWorld) newMessage(topics []string) *pubMsg {
 	tag := fmt.Sprintf("m%d", w.msgSeq)
 	m := &sse.Message{}
 	m.AppendData(tag)
-	if w.repKind != 0 && !w.auto {
+	wantID := w.repKind != 0 && !w.auto
+	if w.repKind != 0 && w.rc.Prop != "C04" && w.ch.Chance(1, 10, "message the replayer rejects") {
+		// wrong ID presence for the real replayer: Put returns an error, Publish must
+		// return it and the message must still be delivered live (C17)
+		wantID = !wantID
+		w.o.fault("message rejected by the real replayer (wrong ID presence)")
+	}
+	if wantID {
 		m.ID = sse.ID("id" + strconv.Itoa(w.msgSeq))
 	} else if w.repKind == 0 && w.ch.Chance(1, 2, "message id") {
 		m.ID = sse.ID("id" + strconv.Itoa(w.msgSeq))
@@ -304,7 +311,7 @@ func (w *joeWorld) newMessage(topics []string) *pubMsg {
 func (w *joeWorld) generate() {
 	ch := w.ch
 	prop := w.rc.Prop
-	w.faults = prop == "C06" || prop == "C17" || (prop == "C07" && ch.Chance(1, 2, "fault config"))
+	w.faults = prop == "C06" || prop == "C17" || (prop == "C07" && ch.Chance(1, 2, "fault config")) || (prop == "C03" && ch.Chance(1, 4, "failing subscribers next to the healthy ones"))
 
 	switch prop {
 	case "C04":
@@ -416,7 +423,7 @@ func (w *joeWorld) generate() {
 	}
 
 	// replayer faults
-	if w.faults && prop != "C06" || (prop == "C06" && ch.Chance(1, 3, "replay error")) {
+	if w.faults && prop != "C06" && prop != "C03" || (prop == "C06" && ch.Chance(1, 3, "replay error")) {
 		if prop == "C06" {
 			w.rep.failReplayAt = ch.Range(1, 3, "failing replay")
 		} else {
@@ -850,7 +857,33 @@ func (w *joeWorld) evaluate(res verifhook.Result, bubblePanic string) {
 	w.checkSubscribeResults()
 	w.checkDeliveries()
 	w.checkReplayerUse()
+	w.mirrorHealthyToC03()
 	w.probes()
+}
+
+// mirrorHealthyToC03: in a fault configuration the delivery clauses are filed
+// under C17 (failure isolation); when the subscriber concerned is itself
+// healthy, the same observation also breaks C03 (exactly once, in order, to
+// every registered matching subscriber), whoever else failed.
+func (w *joeWorld) mirrorHealthyToC03() {
+	if !w.faults {
+		return
+	}
+	delivery := map[string]bool{"duplicate": true, "unknown-message": true, "non-matching": true, "order": true, "window": true, "missing": true, "program-order": true, "order-disagreement": true}
+	n := len(w.o.Violations)
+	for i := 0; i < n; i++ {
+		v := w.o.Violations[i]
+		if v.Prop != "C17" || !delivery[v.Clause] {
+			continue
+		}
+		var id int
+		if _, err := fmt.Sscanf(v.Detail, "sub%d", &id); err != nil || id < 0 || id >= len(w.subs) {
+			continue
+		}
+		if s := w.subs[id]; s.sub.FailSendAt == 0 && s.sub.FailFlushAt == 0 && s.replayErr == nil {
+			w.o.Violations = append(w.o.Violations, Violation{Prop: "C03", Clause: v.Clause, Detail: v.Detail + " (a healthy subscriber, while another subscriber failed)"})
+		}
+	}
 }
 
 func (w *joeWorld) allShutdowns() []*joeShutdown {
@@ -1101,6 +1134,9 @@ func (w *joeWorld) checkDeliveries() {
 			// expected = filter(L[start..)) ; received must be a prefix of it, reaching at least the must-end
 			var expect []int
 			for i := start; i < len(L); i++ {
+				if i < s.acceptLpos && w.rep.inner != nil && !L[i].stored {
+					continue // rejected by the replayer: delivered live only, cannot be replayed
+				}
 				if i < s.acceptLpos && w.ttl > 0 && L[i].at+w.ttl <= s.acceptAt {
 					w.o.probe("expired event skipped by the replay")
 					continue // expired before the replay: must not be replayed (C09), is not missing (C04)
